@@ -90,7 +90,7 @@ Qed.
 
 (* ---- slit, length-only branch: u-substituted bins telescope to one ---- *)
 Definition uval (qi ulim e : R) : R :=
-  if ltb ROps e (Rabs qi) then 0 else if ltb ROps ulim e then ulim * ulim - qi * qi else e * e - qi * qi.
+  if ltb ROps ulim e then ulim * ulim - qi * qi else if ltb ROps e (Rabs qi) then 0 else e * e - qi * qi.
 
 Theorem perp_weights_sum1 e0 rest qi w :
   0 < w -> e0 <= Rabs qi -> sqrt (qi * qi + w * w) <= last rest e0 -> rest <> [] ->
@@ -98,7 +98,7 @@ Theorem perp_weights_sum1 e0 rest qi w :
 Proof.
   intros Hw H0 Hl Hne. unfold perp_weights. cbn [add mul sub div zero absT absv ROps].
   set (ulim := sqrt (qi * qi + w * w)) in *.
-  change (fun e : R => if ltb ROps e (Rabs qi) then 0 else if ltb ROps ulim e then ulim * ulim - qi * qi else e * e - qi * qi)
+  change (fun e : R => if ltb ROps ulim e then ulim * ulim - qi * qi else if ltb ROps e (Rabs qi) then 0 else e * e - qi * qi)
     with (uval qi ulim).
   rewrite sumL_sumT, sumT_map_div, map_map. cbn [map].
   rewrite sumT_diffs_cons. rewrite (last_map (fun e => sqrt (uval qi ulim e))).
@@ -108,16 +108,19 @@ Proof.
   assert (Hge : Rabs qi <= ulim).
   { unfold ulim. rewrite <- (sqrt_square (Rabs qi)) by apply Rabs_pos. apply sqrt_le_1_alt. nra. }
   assert (Hfirst : sqrt (uval qi ulim e0) = 0).
-  { unfold uval. cbn [ltb ROps]. destruct (Rltb e0 (Rabs qi)) eqn:E1; [apply sqrt_0|].
+  { unfold uval. cbn [ltb ROps]. destruct (Rltb ulim e0) eqn:E2; [apply Rltb_true in E2; lra|].
+    destruct (Rltb e0 (Rabs qi)) eqn:E1; [apply sqrt_0|].
     apply Rltb_false in E1. assert (e0 = Rabs qi) by lra. subst e0.
-    destruct (Rltb ulim (Rabs qi)) eqn:E2; [apply Rltb_true in E2; lra|].
     rewrite Habs. replace (qi * qi - qi * qi) with 0 by ring. apply sqrt_0. }
   assert (Hlast : sqrt (uval qi ulim (last rest e0)) = w).
   { set (el := last rest e0) in *. unfold uval. cbn [ltb ROps].
-    destruct (Rltb el (Rabs qi)) eqn:E1; [apply Rltb_true in E1; lra|].
     destruct (Rltb ulim el) eqn:E2.
     - rewrite Hsq. replace (qi * qi + w * w - qi * qi) with (w * w) by ring. apply sqrt_square. lra.
-    - apply Rltb_false in E2. assert (el = ulim) by lra. rewrite H, Hsq.
-      replace (qi * qi + w * w - qi * qi) with (w * w) by ring. apply sqrt_square. lra. }
+    - apply Rltb_false in E2. assert (el = ulim) by lra.
+      destruct (Rltb el (Rabs qi)) eqn:E1.
+      + apply Rltb_true in E1. assert (Rabs qi = ulim) by lra. exfalso.
+        assert (Rabs qi * Rabs qi = ulim * ulim) by (now f_equal). rewrite Habs, Hsq in *. nra.
+      + rewrite H, Hsq.
+        replace (qi * qi + w * w - qi * qi) with (w * w) by ring. apply sqrt_square. lra. }
   rewrite Hlast, Hfirst. field. lra.
 Qed.
